@@ -402,3 +402,6 @@ def r_scheduled_is_nonnegative(ctx):
 RULES = [r_extract, r_horizon_report, r_calendar, r_view_symmetry, r_marker, r_requirement_interval, r_horizon_bounds_ends,
          r_unscheduled_is_parked, r_scheduled_is_nonnegative,
          lambda ctx: __import__("rules.exports", fromlist=["x"]).r_report_readonly(ctx)]
+
+# every assertion a task or a resource makes about a busy interval reaches the solver only if the store keeps it (R-BASE-STORE)
+RULES.append(lambda ctx: __import__("rules.tasks", fromlist=["x"]).r_base_store(ctx))
